@@ -189,29 +189,34 @@ where
         J: ExactSizeIterator<Item = usize>,
     {
         let indices = indices.into_iter().collect::<Vec<_>>();
-        let min_index = *indices.first().unwrap();
         let leaves_vec = leaves.into_iter().collect::<Vec<_>>();
 
-        let max_index = start + leaves_vec.len();
-
-        let mut set_values = vec![Self::Hasher::default_leaf(); max_index - min_index];
-
-        for i in min_index..start {
-            if !indices.contains(&i) {
-                let value = self.get_leaf(i);
-                set_values[i - min_index] = value;
-            }
+        // validate the whole request first, so that a rejected request changes nothing
+        if leaves_vec.is_empty() && indices.is_empty() {
+            return Err(Report::msg("no leaves or indices to be removed"));
+        }
+        if start
+            .checked_add(leaves_vec.len())
+            .is_none_or(|end| end > self.capacity())
+        {
+            return Err(Report::msg("provided range exceeds set size"));
+        }
+        if indices.iter().any(|&i| i >= self.capacity()) {
+            return Err(Report::msg("index to remove exceeds set size"));
         }
 
-        for i in 0..leaves_vec.len() {
-            set_values[start - min_index + i] = leaves_vec[i];
-        }
-
+        // reset the removed leaves (next_index is not updated by removals)
         for i in indices {
+            self.nodes.insert((self.depth, i), Self::Hasher::default_leaf());
+            self.update_hashes(i, 1)?;
             self.cached_leaves_indices[i] = 0;
         }
 
-        self.set_range(start, set_values.into_iter())
+        // then write the new leaves at start, start + 1, ...
+        if leaves_vec.is_empty() {
+            return Ok(());
+        }
+        self.set_range(start, leaves_vec.into_iter())
             .map_err(|e| Report::msg(e.to_string()))
     }
 
